@@ -1,4 +1,5 @@
 import Propka.Model.Coupling
+import Propka.Model.Setup
 import Mathlib.Algebra.Order.Field.Rat
 import Mathlib.Tactic.NormNum
 /-! # C01, continued - covalently coupled systems: one group of the system is left out of the printed tables
@@ -29,3 +30,168 @@ theorem pair_loses_one (a b : CG ℚ) (h : a.label ≠ b.label) : (summaryRows [
     · simp [hq, List.filter, h, Ne.symm h]
     · simp [hq, List.filter, h, Ne.symm h]
 end Propka.Coupling
+
+/-! ## the covalent coupling search (`Model/Setup.lean`: `find_covalently_coupled_groups`, `couple_covalently`) -/
+namespace Propka.Setup
+
+theorem getD_set (cov : Array (List Nat)) (g : Nat) (l : List Nat) (i : Nat) (hg : g < cov.size) :
+    (cov.setIfInBounds g l).getD i [] = if i = g then l else cov.getD i [] := by
+  simp only [Array.getD_eq_getD_getElem?, Array.getElem?_setIfInBounds]
+  by_cases h : g = i
+  · subst h; simp [hg]
+  · simp [h, Ne.symm h]
+
+/-- one half of `couple_covalently`: `h` is appended to the list of `g` unless it is there -/
+def addTo (cov : Array (List Nat)) (g h : Nat) : Array (List Nat) :=
+  if (cov.getD g []).contains h then cov else cov.setIfInBounds g (cov.getD g [] ++ [h])
+
+theorem couple_eq (cov : Array (List Nat)) (g h : Nat) : couple cov g h = addTo (addTo cov g h) h g := by
+  unfold couple addTo; rfl
+
+theorem addTo_size (cov : Array (List Nat)) (g h : Nat) : (addTo cov g h).size = cov.size := by
+  unfold addTo
+  by_cases hc : (cov.getD g []).contains h = true
+  · rw [if_pos hc]
+  · rw [if_neg hc]; simp
+
+theorem mem_addTo (cov : Array (List Nat)) (g h : Nat) (hg : g < cov.size) (i j : Nat) :
+    j ∈ (addTo cov g h).getD i [] ↔ j ∈ cov.getD i [] ∨ (i = g ∧ j = h) := by
+  unfold addTo
+  by_cases hc : (cov.getD g []).contains h = true
+  · rw [if_pos hc]
+    have : h ∈ cov.getD g [] := by simpa using hc
+    constructor
+    · exact Or.inl
+    · rintro (x | ⟨rfl, rfl⟩)
+      · exact x
+      · exact this
+  · rw [if_neg hc, getD_set _ _ _ _ hg]
+    by_cases hi : i = g
+    · subst hi; simp only [if_true, List.mem_append, List.mem_singleton, true_and]
+    · simp only [hi, if_false, false_and, or_false]
+
+/-- **`couple_covalently` adds exactly the two mutual entries** -/
+theorem mem_couple (cov : Array (List Nat)) (g h : Nat) (hg : g < cov.size) (hh : h < cov.size) (i j : Nat) :
+    j ∈ (couple cov g h).getD i [] ↔ j ∈ cov.getD i [] ∨ (i = g ∧ j = h) ∨ (i = h ∧ j = g) := by
+  rw [couple_eq, mem_addTo _ _ _ (by rw [addTo_size]; exact hh), mem_addTo _ _ _ hg, or_assoc]
+
+/-- coupling lists are symmetric -/
+def Sym (cov : Array (List Nat)) : Prop := ∀ i j, j ∈ cov.getD i [] ↔ i ∈ cov.getD j []
+
+theorem couple_sym (cov : Array (List Nat)) (g h : Nat) (hg : g < cov.size) (hh : h < cov.size) (hs : Sym cov) : Sym (couple cov g h) := by
+  intro i j
+  rw [mem_couple _ _ _ hg hh, mem_couple _ _ _ hg hh, hs i j]
+  constructor <;> rintro (x | ⟨a, b⟩ | ⟨a, b⟩)
+  · exact Or.inl x
+  · exact Or.inr (Or.inr ⟨b, a⟩)
+  · exact Or.inr (Or.inl ⟨b, a⟩)
+  · exact Or.inl x
+  · exact Or.inr (Or.inr ⟨b, a⟩)
+  · exact Or.inr (Or.inl ⟨b, a⟩)
+
+theorem couple_size (cov : Array (List Nat)) (g h : Nat) : (couple cov g h).size = cov.size := by
+  rw [couple_eq, addTo_size, addTo_size]
+
+/-- **The covalent coupling lists are symmetric**: `h` is in the list of `g` exactly when `g` is in the list of `h`, whatever
+    the bonds, the SYBYL types and the titratable flags are (provided every group the bond search returns is one of the `n` groups). -/
+theorem covalentCoupling_sym (atoms : Scoring.Tab Scoring.AtomT) (n : Nat) (gatom : Nat → Nat) (grpOf : Nat → Option Nat) (titr : Nat → Bool)
+    (sybyl : Nat → String) (maxB : Nat) (hin : ∀ a g, grpOf a = some g → g < n) :
+    Sym (covalentCoupling atoms n gatom grpOf titr sybyl maxB) := by
+  unfold covalentCoupling
+  -- invariant of the two nested folds: size n and symmetric
+  have inner : ∀ (g : Nat), g < n → ∀ (l : List Nat), (∀ h ∈ l, h < n) → ∀ cov : Array (List Nat), cov.size = n → Sym cov →
+      (let r := l.foldl (fun cov h => if (cov.getD g []).contains h then cov else if sybyl (gatom h) == sybyl (gatom g) then couple cov g h else cov) cov
+       r.size = n ∧ Sym r) := by
+    intro g hg l
+    induction l with
+    | nil => intro _ cov hsz hs; exact ⟨hsz, hs⟩
+    | cons h l ih =>
+      intro hl cov hsz hs
+      simp only [List.foldl_cons]
+      by_cases hc : (cov.getD g []).contains h = true
+      · rw [if_pos hc]; exact ih (fun x hx => hl x (List.mem_cons_of_mem _ hx)) cov hsz hs
+      · rw [if_neg hc]
+        by_cases hsy : (sybyl (gatom h) == sybyl (gatom g)) = true
+        · rw [if_pos hsy]
+          exact ih (fun x hx => hl x (List.mem_cons_of_mem _ hx)) _ (by rw [couple_size]; exact hsz)
+            (couple_sym cov g h (by rw [hsz]; exact hg) (by rw [hsz]; exact hl h (by simp)) hs)
+        · rw [if_neg hsy]; exact ih (fun x hx => hl x (List.mem_cons_of_mem _ hx)) cov hsz hs
+  -- the groups the bond search returns are groups of the table
+  have hbt : ∀ (orig fuel a nb : Nat), ∀ x ∈ bondedTitr atoms grpOf titr maxB orig fuel a nb, x < n := by
+    intro orig fuel
+    induction fuel with
+    | zero => intro a nb x hx; simp [bondedTitr] at hx
+    | succ f ih =>
+      intro a nb x hx
+      unfold bondedTitr at hx
+      -- invariant of the fold over the bonded atoms
+      have key : ∀ (l : List Nat) (res : List Nat), (∀ y ∈ res, y < n) →
+          ∀ y ∈ l.foldl (fun res b =>
+            if b == orig then res else
+            let res1 := match grpOf b with
+              | some g => if titr g && decide (nb ≤ maxB) then ounion res [g] else res
+              | none => res
+            if nb < maxB then ounion res1 (bondedTitr atoms grpOf titr maxB orig f b (nb + 1)) else res1) res, y < n := by
+        intro l
+        induction l with
+        | nil => intro res hres y hy; exact hres y hy
+        | cons b l ihl =>
+          intro res hres y hy
+          simp only [List.foldl_cons] at hy
+          refine ihl _ ?_ y hy
+          have hou : ∀ (p q : List Nat), (∀ y ∈ p, y < n) → (∀ y ∈ q, y < n) → ∀ y ∈ ounion p q, y < n := by
+            intro p q hp hq
+            unfold ounion
+            induction q generalizing p with
+            | nil => exact hp
+            | cons z q ihq =>
+              simp only [List.foldl_cons]
+              apply ihq
+              · intro y hy
+                split at hy
+                · exact hp y hy
+                · rcases List.mem_append.mp hy with e | e
+                  · exact hp y e
+                  · rw [List.mem_singleton.mp e]; exact hq z (by simp)
+              · exact fun y hy => hq y (List.mem_cons_of_mem _ hy)
+          by_cases hbo : (b == orig) = true
+          · rw [if_pos hbo]; exact hres
+          · rw [if_neg hbo]
+            have h1 : ∀ y ∈ (match grpOf b with
+                | some g => if titr g && decide (nb ≤ maxB) then ounion res [g] else res
+                | none => res), y < n := by
+              cases hgb : grpOf b with
+              | none => exact hres
+              | some g =>
+                simp only
+                split
+                · exact hou _ _ hres (fun y hy => by rw [List.mem_singleton.mp hy]; exact hin b g hgb)
+                · exact hres
+            by_cases hnb : nb < maxB
+            · rw [if_pos hnb]; exact hou _ _ h1 (ih b (nb + 1))
+            · rw [if_neg hnb]; exact h1
+      exact key _ [] (by simp) x hx
+  have outer : ∀ (l : List Nat), (∀ g ∈ l, g < n) → ∀ cov : Array (List Nat), cov.size = n → Sym cov →
+      Sym (l.foldl (fun cov g =>
+        (bondedTitr atoms grpOf titr maxB (gatom g) (maxB + 1) (gatom g) 1).foldl (fun cov h =>
+          if (cov.getD g []).contains h then cov
+          else if sybyl (gatom h) == sybyl (gatom g) then couple cov g h else cov) cov) cov) := by
+    intro l
+    induction l with
+    | nil => intro _ cov _ hs; exact hs
+    | cons g l ih =>
+      intro hl cov hsz hs
+      simp only [List.foldl_cons]
+      obtain ⟨h1, h2⟩ := inner g (hl g (by simp)) _ (hbt _ _ _ _) cov hsz hs
+      exact ih (fun x hx => hl x (List.mem_cons_of_mem _ hx)) _ h1 h2
+  apply outer
+  · intro g hg; exact List.mem_range.mp (List.mem_filter.mp hg).1
+  · simp
+  · intro i j
+    have e : ∀ k, (Array.replicate n ([] : List Nat)).getD k [] = [] := by
+      intro k
+      simp only [Array.getD_eq_getD_getElem?, Array.getElem?_replicate]
+      split <;> rfl
+    rw [e, e]; simp
+
+end Propka.Setup
